@@ -20,5 +20,6 @@ CONSTANTS
   BugContES = TRUE
   BugPadCredit = FALSE
   EncodeAtEnqueue = FALSE
+  BugZeroCostHeld = FALSE
 INVARIANTS WithinGrant WithinMaxFrame CreditReturned NoEligibleQueued LedgerAgrees PrefixFidelity
 CHECK_DEADLOCK FALSE
